@@ -74,12 +74,19 @@ pub struct GraphEngine {
     checkpoint_txid: AtomicU64,
     properties_root: AtomicU64,
     stats_root: AtomicU64,
+
+    /// Holds the exclusive advisory lock of this database (`<ndb>.lock`); released when the engine is dropped.
+    _file_lock: std::fs::File,
 }
 
 impl GraphEngine {
     pub fn open(ndb_path: impl AsRef<Path>, wal_path: impl AsRef<Path>) -> Result<Self> {
         let ndb_path = ndb_path.as_ref().to_path_buf();
         let wal_path = wal_path.as_ref().to_path_buf();
+
+        // One writer per database: a second engine on the same files (in this or another
+        // process) would replay and append to the same WAL and allocate the same pages.
+        let file_lock = lock_database(&ndb_path)?;
 
         let mut pager = Pager::open(&ndb_path)?;
         let wal = Wal::open(&wal_path)?;
@@ -150,6 +157,7 @@ impl GraphEngine {
             checkpoint_txid: AtomicU64::new(state.checkpoint_txid),
             properties_root: AtomicU64::new(state.properties_root),
             stats_root: AtomicU64::new(state.stats_root),
+            _file_lock: file_lock,
         })
     }
 
@@ -624,6 +632,32 @@ impl GraphEngine {
         }
 
         Ok(())
+    }
+}
+
+/// Takes an exclusive, non-blocking advisory lock for the database whose data file is
+/// `ndb_path`. A sidecar file `<ndb_path>.lock` is locked rather than the data file itself,
+/// so that platforms with mandatory file locks do not block the pager's own handle.
+/// The lock belongs to the returned handle and is released when it is dropped.
+fn lock_database(ndb_path: &Path) -> Result<std::fs::File> {
+    let mut lock_path = ndb_path.as_os_str().to_os_string();
+    lock_path.push(".lock");
+    let file = std::fs::OpenOptions::new()
+        .read(true)
+        .write(true)
+        .create(true)
+        .truncate(false)
+        .open(&lock_path)?;
+    match file.try_lock() {
+        Ok(()) => Ok(file),
+        Err(std::fs::TryLockError::WouldBlock) => Err(Error::Io(std::io::Error::new(
+            std::io::ErrorKind::WouldBlock,
+            format!(
+                "database {} is already open (locked by another handle)",
+                ndb_path.display()
+            ),
+        ))),
+        Err(std::fs::TryLockError::Error(e)) => Err(Error::Io(e)),
     }
 }
 
